@@ -481,7 +481,7 @@ func parseFenceMsg(body string) (fenceMsg, string, error) {
 			case float64:
 				fm[k] = fnum(x)
 			case string:
-				fm[k] = x
+				fm[k] = canonField(fkString, x)
 			case bool:
 				fm[k] = strconv.FormatBool(x)
 			default:
